@@ -71,6 +71,7 @@ func applyProfile(w *World, p *Profile) {
 	w.CheckFree = p.CheckFree
 	w.CheckLedger = p.CheckLedger
 	w.RecordIO = p.recordIO
+	w.AdvValues = p.AdvValues
 	w.installMonitors()
 }
 
